@@ -50,18 +50,26 @@ def run(ctx):
     ctx.mc('tso', 'GlobalPhases', 'MC_GlobalPhases_stickyskip.cfg', timeout=600, expect_violation='Consistent')
     # ... and with one round of requests per phase (an early exit from the loop in SyncMaxTS) a multi-value global request would overlap
     ctx.mc('tso', 'GlobalPhases', 'MC_GlobalPhases_oneround.cfg', timeout=600, expect_violation='Consistent')
+    # ... and with both datacenters led by one member (its handler answers for / writes all the allocators it leads)
+    ctx.mc('tso', 'GlobalPhases', 'MC_GlobalPhases_together.cfg', timeout=1800)
     for sd in seeds:
-        behs = ctx.simulate('tso', 'GlobalPhases', 'Sim_GlobalPhases.cfg', num=60 if q else 250, depth=70, seed=sd)
-        bj = os.path.join(ctx.dir, 'phases_behs.json')
-        json.dump(behs, open(bj, 'w'))
-        tr = os.path.join(ctx.dir, 'phases_%d.ndjson' % sd)
-        vlib.run_harness(['tso', 'phases', 'in=' + bj, 'out=' + tr], timeout=2400)
-        bad, evs = ctx.monitor_all('tso', 'Mon_GlobalPhases', 'Mon_GlobalPhases.cfg', tr, 'phases_%d' % sd, timeout=1800)
-        handle(ctx, bad, evs, 'phases_%d' % sd)
-        for k, f in (('gated_sync_requests_delivered', lambda e: e.get('ev') == 'deliver'), ('replies_lost', lambda e: e.get('ev') == 'deliver' and e['lost']),
-                     ('second_phases', lambda e: e.get('ev') == 'round' and e['skip']), ('gated_global_requests', lambda e: e.get('ev') == 'global' and not e['err'])):
-            ctx.extra[k] = ctx.extra.get(k, 0) + sum(1 for e in evs if f(e))
-        ctx.sample({'kind': 'a global request delivered request by request on a real 3-datacenter cluster', 'events': [e for e in evs if e.get('ev') in ('start', 'round', 'deliver', 'global')][:8]})
+        # every member leads the allocator of its own datacenter; then dc-3 led by the member of dc-1 (two requests per round)
+        for cfg, layout, num in (('Sim_GlobalPhases.cfg', '', 60 if q else 250), ('Sim_GlobalPhases_pair.cfg', 'pair', 30 if q else 120)):
+            behs = ctx.simulate('tso', 'GlobalPhases', cfg, num=num, depth=70, seed=sd)
+            bj = os.path.join(ctx.dir, 'phases_behs.json')
+            json.dump(behs, open(bj, 'w'))
+            lab = 'phases%s_%d' % (layout, sd)
+            tr = os.path.join(ctx.dir, lab + '.ndjson')
+            vlib.run_harness(['tso', 'phases', 'in=' + bj, 'out=' + tr, 'layout=' + layout], timeout=2400)
+            bad, evs = ctx.monitor_all('tso', 'Mon_GlobalPhases', 'Mon_GlobalPhases.cfg', tr, lab, timeout=1800)
+            handle(ctx, bad, evs, lab)
+            for k, f in (('gated_sync_requests_delivered', lambda e: e.get('ev') == 'deliver'), ('replies_lost', lambda e: e.get('ev') == 'deliver' and e['lost']),
+                         ('second_phases', lambda e: e.get('ev') == 'round' and e['skip']), ('gated_global_requests', lambda e: e.get('ev') == 'global' and not e['err']),
+                         ('requests_to_a_member_leading_two_datacenters', lambda e: e.get('ev') == 'deliver' and len(e['dcs']) > 1)):
+                ctx.extra[k] = ctx.extra.get(k, 0) + sum(1 for e in evs if f(e))
+            if layout == '':
+                ctx.sample({'kind': 'a global request delivered request by request on a real 3-datacenter cluster',
+                            'events': [e for e in evs if e.get('ev') in ('start', 'round', 'deliver', 'global')][:8]})
     T.run_local_global(ctx, T.LG_C05, q)
     return ctx.finish(rule='exhaustive TLC of LocalGlobal.tla (2 datacenters, the global request in phases estimate/check/decide/write/return '
                            'interleaved with local requests and physical ticks), of GlobalPhases.tla (2 datacenters; attempts, two rounds of '
